@@ -9,9 +9,9 @@ import os, sys, json, re, time, hashlib, subprocess, shutil, random
 ROOT = os.path.dirname(os.path.dirname(os.path.abspath(__file__)))
 REPO = os.environ.get('VERIF_REPO', '/repo')
 SPEC = os.path.join(ROOT, 'spec')
-WORK = os.path.join(ROOT, 'work')
+WORK = os.environ.get('VERIF_WORK') or os.path.join(ROOT, 'work')
 EVID = os.path.join(ROOT, 'evidence')
-REPL = os.path.join(ROOT, 'replays')
+REPL = os.environ.get('VERIF_REPL') or os.path.join(ROOT, 'replays')
 NCPU = int(os.environ.get('VERIF_CPUS', os.cpu_count() or 4))
 TLA_JAR = '/opt/veriftools/tla/tla2tools.jar'
 TLA_CP = TLA_JAR + ':/opt/veriftools/tla/CommunityModules-deps.jar'
